@@ -652,6 +652,18 @@ impl Node {
         }
         debug!("Payment is valid for record {pretty_key}");
 
+        // the quote(s) we issued must be for the address being stored: a quote paid for
+        // other content must not buy storage of this record
+        let data_name = address.as_xorname().unwrap_or_default();
+        if payment
+            .quotes_by_peer(&self_peer_id)
+            .iter()
+            .any(|quote| quote.content != data_name)
+        {
+            warn!("Payment quote was not issued for record {pretty_key}");
+            return Err(Error::InvalidQuoteContent);
+        }
+
         // verify quote expiration
         if payment.has_expired() {
             warn!("Payment quote has expired for record {pretty_key}");
